@@ -28,6 +28,33 @@ def cases(rng, which, count):
             if w == "strand":
                 for argv in (["revcomp"], ["toupper"], ["tolower"], ["unalign"]):
                     yield Case("cli_lib", [st] + argv, True, "cli-" + argv[0])
+            elif w == "revcomp-names":
+                names = [r[0] for r in rows]
+                pick = [rng.choice(names + ["nope"]) for _ in range(rng.randint(1, 3))]
+                un = ["--unaligned"] if rng.random() < 0.5 else []
+                yield Case("cli_lib", [st, "revcomp"] + pick + un, True, "cli-revcomp-names")
+                if un:
+                    yield Case("cli_lib", [st, "revcomp", "--unaligned"], True, "cli-revcomp-unaligned")
+            elif w == "addid":
+                fl = []
+                if rng.random() < 0.8:
+                    fl += ["-n", rng.choice(["x_", "none", "None", "_s", "a.b"])]
+                if rng.random() < 0.4:
+                    fl.append("-r")
+                yield Case("cli_lib", [st, "addid"] + fl, True, "cli-addid")
+            elif w == "translate-ref":
+                nt = [(nm, "".join(rng.choice("ACGTacgtN-" + "-" * rng.choice([0, 3])) for _ in range(L))) for nm, _ in rows]
+                fl = []
+                if rng.random() < 0.6:
+                    fl += ["--phase", str(rng.randint(0, 2))]
+                if rng.random() < 0.6:
+                    fl += ["--genetic-code", rng.choice(["standard", "mitov", "mitoi"])]
+                yield Case("cli_lib", [esc(fasta(nt)), "translate", "--ref-seq", rng.choice(nt)[0]] + fl, True, "cli-translate-refseq")
+            elif w == "entropy":
+                cols = ["".join(rng.choice(c) for _ in range(n)) for c in (rng.choice(["A", "AC", "ACGT-", "-", "*", "AC-", "N.", "ac"]) for _ in range(L))]
+                er = [("s%d" % i, "".join(c[i] for c in cols)) for i in range(n)]
+                fl = [f for f in ("-a", "-g") if rng.random() < 0.5]
+                yield Case("cli_lib", [esc(fasta(er)), "compute", "entropy"] + fl, True, "cli-entropy")
             elif w == "sites":
                 ss = [str(rng.randint(-1, L)) for _ in range(rng.randint(1, 4))]
                 yield Case("cli_lib", [st, "subsites"] + ss, True, "cli-subsites")
@@ -75,18 +102,18 @@ def cases(rng, which, count):
             elif w == "clean":
                 cut = rng.choice(["0", "0.25", "0.5", "0.75", "1", "0.1", "0.3"])
                 fl = []
-                ch = rng.choice(["GAP", "GAP", "N", "A", "MAJ"])
+                ch = rng.choice(["GAP", "GAP", "N", "A", "MAJ", "-N", "N-", "-A", "AC", "Nn"])
                 if ch != "GAP":
                     fl += ["--char", ch]
                 if rng.random() < 0.3:
                     fl.append("--ends")
-                if ch not in ("GAP", "-") and rng.random() < 0.3:
+                if ch != "GAP" and "-" not in ch and rng.random() < 0.3:
                     fl.append("--ignore-gaps")
-                if ch not in ("N", "n") and rng.random() < 0.3:
+                if "N" not in ch and "n" not in ch and rng.random() < 0.3:
                     fl.append("--ignore-n")
-                if ch in ("N", "A") and rng.random() < 0.3:
+                if ch not in ("GAP", "MAJ") and rng.random() < 0.3:
                     fl.append("--ignore-case")
-                if ch in ("N", "A") and rng.random() < 0.2:
+                if ch not in ("GAP", "MAJ") and rng.random() < 0.3:
                     fl.append("--reverse")
                 yield Case("cli_lib", [st, "clean", "sites", "-c", cut] + fl, True, "cli-clean-sites")
 
@@ -101,8 +128,8 @@ def shrink(c):
     for i in range(len(rows)):
         r2 = rows[:i] + rows[i + 1:]
         if r2:
-            yield Case("cli_lib", [esc(fasta(r2))] + rest)
+            yield Case(c.op, [esc(fasta(r2))] + rest)
     L = len(rows[0][1]) if rows else 0
     if L > 1 and rest and rest[0] not in ("subsites", "subseq"):
         for j in range(L):
-            yield Case("cli_lib", [esc(fasta([(n, s[:j] + s[j + 1:]) for n, s in rows]))] + rest)
+            yield Case(c.op, [esc(fasta([(n, s[:j] + s[j + 1:]) for n, s in rows]))] + rest)
